@@ -469,4 +469,545 @@ theorem ruleLine_rt (ext : Bool) (f prio : Nat) (c : Call) (hc : RuleOk ext f c)
       simp only [e1, e2, bind, Except.bind, pure, Except.pure, hvv]
   | _ => exact absurd hc (by simp [RuleOk])
 
+/-! ### the rule section as a whole -/
+
+def rulesText (f : Nat) (rs : List Call) : List Nat := (rs.map (ruleText f)).flatten
+
+def canonRules (f : Nat) : Nat → List Call → List Call
+  | _, [] => []
+  | prio, c :: cs => match canonRule f prio c with
+    | (some c', p') => c' :: canonRules f p' cs
+    | (none, p') => canonRules f p' cs
+
+theorem canonRule_none (ext : Bool) (f prio : Nat) (c : Call) (hc : RuleOk ext f c) (h0 : ruleRT c = 0) : canonRule f prio c = (none, prio) := by
+  cases c with
+  | rule ht head body =>
+    cases head with
+    | nil => by_cases h1 : ht = 1
+             · simp [canonRule, h1]
+             · simp [ruleRT, h1] at h0
+    | cons x r => by_cases h1 : ht = 1
+                  · simp [ruleRT, h1] at h0
+                  · cases r <;> simp [ruleRT, h1] at h0
+  | sumRule ht head b ws => simp only [ruleRT] at h0; split at h0 <;> simp at h0
+  | minimize p ws => simp [ruleRT] at h0
+  | external x v => simp only [ruleRT] at h0; split at h0 <;> simp at h0
+  | _ => exact absurd hc (by simp [RuleOk])
+
+theorem sp_addHead_cons (ht x : Nat) (r k : List Nat) : Sp (addHead ht (x :: r) ++ k) := by
+  unfold addHead
+  split
+  · rw [List.append_assoc]; exact sp_addN _ _
+  · simp only [List.nil_append, natsSp, List.map_cons, List.flatten_cons, List.append_assoc]; exact sp_addN _ _
+
+theorem sp_ruleFields (ext : Bool) (f : Nat) (c : Call) (hc : RuleOk ext f c) (k : List Nat) : Sp (ruleFields f c ++ k) := by
+  cases c with
+  | rule ht head body =>
+    cases head with
+    | nil => simp only [ruleFields, List.isEmpty_nil, ↓reduceIte, List.append_assoc]; exact sp_addHead_cons _ _ _ _
+    | cons x r => simp only [ruleFields, List.isEmpty_cons, Bool.false_eq_true, ↓reduceIte, List.append_assoc]; exact sp_addHead_cons _ _ _ _
+  | sumRule ht head b ws =>
+    cases head with
+    | nil => simp only [ruleFields, List.isEmpty_nil, ↓reduceIte, List.append_assoc]; exact sp_addHead_cons _ _ _ _
+    | cons x r => simp only [ruleFields, List.isEmpty_cons, Bool.false_eq_true, ↓reduceIte, List.append_assoc]; exact sp_addHead_cons _ _ _ _
+  | minimize p ws =>
+    simp only [ruleFields, addSum, Bool.false_eq_true, ↓reduceIte, List.append_assoc]; exact sp_addN _ _
+  | external x v =>
+    simp only [ruleFields]; split
+    · rw [List.append_assoc]; exact sp_addN _ _
+    · exact sp_addN _ _
+  | _ => exact absurd hc (by simp [RuleOk])
+
+attribute [local irreducible] ruleOf pos in
+theorem rulesLoop_succ (ext : Bool) (f : Nat) (a : AS) (prio : Nat) (acc : List Call) : rulesLoop ext (f + 1) a prio acc =
+    (match pos a with
+     | .error l => (acc.reverse, .error l)
+     | .ok (rt, a1) =>
+       if rt = 0 then (acc.reverse, .ok a1) else
+       match ruleOf ext rt prio a1 with
+       | .error l => (acc.reverse, .error l)
+       | .ok ((c, prio'), a2) => rulesLoop ext f a2 prio' (match c with | some c => c :: acc | none => acc)) := rfl
+
+theorem printNat_len (n : Nat) : 1 ≤ (printNat n).length := by
+  have := printNat_ne_nil n
+  cases h : printNat n with
+  | nil => exact absurd h this
+  | cons d r => simp
+
+/-- the terminating `0` of a section, read with `pos` -/
+theorem zero_line (a : AS) (ws k : List Nat) (hws : ∀ x ∈ ws, isWs x = true) (hr : a.rest = ws ++ (str "0" ++ nl ++ k)) :
+    ∃ a', pos a = .ok (0, a') ∧ a'.rest = nl ++ k := by
+  have e0 : str "0" = printNat 0 := by decide +kernel
+  exact posMax_ws U32MAX 0 (by decide) (by decide) a ws (nl ++ k) hws (by rw [hr, e0]; simp) (sp_nl _)
+
+theorem rulesLoop_rt (ext : Bool) (f : Nat) : ∀ (rs : List Call) (fuel : Nat) (a : AS) (prio : Nat) (acc : List Call) (ws k : List Nat),
+    a.rest.length < fuel → (∀ c ∈ rs, RuleOk ext f c) → (∀ x ∈ ws, isWs x = true) →
+    a.rest = ws ++ (rulesText f rs ++ (str "0" ++ nl ++ k)) →
+    ∃ a', rulesLoop ext fuel a prio acc = (acc.reverse ++ canonRules f prio rs, .ok a') ∧ a'.rest = nl ++ k := by
+  intro rs
+  induction rs with
+  | nil =>
+    intro fuel a prio acc ws k hf _ hws hr
+    obtain ⟨f', rfl⟩ : ∃ f', fuel = f' + 1 := ⟨fuel - 1, by omega⟩
+    obtain ⟨a1, e1, r1⟩ := zero_line a ws k hws (by simpa [rulesText] using hr)
+    exact ⟨a1, by rw [rulesLoop_succ, e1]; simp [canonRules], r1⟩
+  | cons c rs ih =>
+    intro fuel a prio acc ws k hf hok hws hr
+    have hc := hok c (by simp)
+    have hrs : ∀ x ∈ rs, RuleOk ext f x := fun x hx => hok x (by simp [hx])
+    by_cases h0 : ruleRT c = 0
+    · have ht : ruleText f c = [] := by simp [ruleText, h0]
+      have hcn := canonRule_none ext f prio c hc h0
+      obtain ⟨a1, e1, r1⟩ := ih fuel a prio acc ws k hf hrs hws (by rw [hr]; simp [rulesText, ht])
+      refine ⟨a1, ?_, r1⟩
+      rw [e1]; simp [canonRules, hcn]
+    · obtain ⟨f', rfl⟩ : ∃ f', fuel = f' + 1 := ⟨fuel - 1, by omega⟩
+      have ht : ruleText f c = printNat (ruleRT c) ++ ruleFields f c ++ nl := by simp [ruleText, h0]
+      have hrt : ruleRT c ≤ U32MAX := by
+        cases c <;> simp only [ruleRT] <;> (repeat' split) <;> decide
+      have hr' : a.rest = ws ++ (printNat (ruleRT c) ++ (ruleFields f c ++ (nl ++ (rulesText f rs ++ (str "0" ++ nl ++ k))))) := by
+        rw [hr]; simp [rulesText, ht]
+      obtain ⟨a1, e1, r1⟩ := posMax_ws U32MAX (ruleRT c) hrt (by decide) a ws _ hws hr' (sp_ruleFields ext f c hc _)
+      obtain ⟨a2, e2, r2⟩ := ruleLine_rt ext f prio c hc h0 a1 _ r1
+      have hlen : a2.rest.length < f' := by
+        have := printNat_len (ruleRT c)
+        rw [hr'] at hf
+        rw [r2]
+        simp only [List.length_append] at hf ⊢
+        omega
+      have hpos : pos a = .ok (ruleRT c, a1) := e1
+      rcases hcr : canonRule f prio c with ⟨_ | c', p'⟩
+      · obtain ⟨a3, e3, r3⟩ := ih f' a2 p' acc nl k hlen hrs nl_ws r2
+        refine ⟨a3, ?_, r3⟩
+        rw [rulesLoop_succ, hpos]
+        simp only [h0, ↓reduceIte, e2, hcr, e3, canonRules]
+      · obtain ⟨a3, e3, r3⟩ := ih f' a2 p' (c' :: acc) nl k hlen hrs nl_ws r2
+        refine ⟨a3, ?_, r3⟩
+        rw [rulesLoop_succ, hpos]
+        simp only [h0, ↓reduceIte, e2, hcr, e3, canonRules]
+        simp
+
+/-- the incremental marker `90 0` at the start of a step -/
+theorem rulesLoop_inc (f : Nat) (a : AS) (prio : Nat) (acc : List Call) (k : List Nat) (hr : a.rest = str "90 0" ++ nl ++ k) :
+    ∃ a', rulesLoop true (f + 1) a prio acc = rulesLoop true f a' prio acc ∧ a'.rest = nl ++ k := by
+  have e : str "90 0" = printNat 90 ++ addN 0 := by decide +kernel
+  obtain ⟨a1, e1, r1⟩ := posMax_ws U32MAX 90 (by decide) (by decide) a [] (addN 0 ++ (nl ++ k)) (by simp) (by rw [hr, e]; simp) (sp_addN _ _)
+  obtain ⟨a2, e2, r2⟩ := pos_addN 0 (by decide) a1 _ r1 (sp_nl _)
+  refine ⟨a2, ?_, r2⟩
+  have hpos : pos a = .ok (90, a1) := e1
+  rw [rulesLoop_succ, hpos]
+  simp only [show ¬ ((90 : Nat) = 0) by decide, ↓reduceIte, ruleOf_90, e2, bind, Except.bind, pure, Except.pure, ne_eq, not_true_eq_false]
+
+/-! ### the symbol table -/
+
+def OutOk : Call → Prop
+  | .output name [l] => 0 < l ∧ l ≤ 2147483647 ∧ ∀ c ∈ name, c ≠ 0 ∧ c ≠ 10 ∧ c ≠ 13
+  | _ => False
+
+def symText : Call → List Nat
+  | .output name [l] => printNat l.toNat ++ sp ++ name ++ nl
+  | _ => []
+
+def symsText (outs : List Call) : List Nat := (outs.map symText).flatten
+
+theorem nameLoop_rt : ∀ (name : List Nat) (fuel : Nat) (a : AS) (acc k : List Nat), name.length < fuel →
+    (∀ c ∈ name, c ≠ 0 ∧ c ≠ 10 ∧ c ≠ 13) → a.rest = name ++ (nl ++ k) →
+    ∃ a', nameLoop fuel a acc = .ok (acc.reverse ++ name, a') ∧ a'.rest = k := by
+  intro name
+  induction name with
+  | nil =>
+    intro fuel a acc k hf _ hr
+    obtain ⟨f', rfl⟩ : ∃ f', fuel = f' + 1 := ⟨fuel - 1, by simp at hf; omega⟩
+    have hg := get_plain' a k (by simpa using hr)
+    exact ⟨{ rest := k, line := a.line + 1, canUnget := true }, by simp [nameLoop, hg], rfl⟩
+  | cons c r ih =>
+    intro fuel a acc k hf hok hr
+    obtain ⟨f', rfl⟩ : ∃ f', fuel = f' + 1 := ⟨fuel - 1, by simp at hf; omega⟩
+    have hc := hok c (by simp)
+    have hg := get_plain a c (r ++ (nl ++ k)) (by simpa using hr) hc.1 hc.2.2 hc.2.1
+    obtain ⟨a1, e1, r1⟩ := ih f' { rest := r ++ (nl ++ k), line := a.line, canUnget := true } (c :: acc) k (by simp at hf; omega)
+      (fun x hx => hok x (by simp [hx])) rfl
+    refine ⟨a1, ?_, r1⟩
+    simp only [nameLoop, hg, beq_iff_eq, hc.2.1, ↓reduceIte, hc.1, e1]
+    simp
+
+attribute [local irreducible] nameLoop posMax in
+theorem symbolsLoop_succ (f : Nat) (a : AS) (acc : List Call) : symbolsLoop (f + 1) a acc =
+    (match posMax Gen.atomMax a with
+     | .error l => (acc.reverse, .error l)
+     | .ok (x, a1) =>
+       if x = 0 then (acc.reverse, .ok a1) else
+       match nameLoop ((a1.get.2).rest.length + 1) a1.get.2 [] with
+       | .error l => (acc.reverse, .error l)
+       | .ok (nm, a3) => symbolsLoop f a3 (.output nm [(x : Int)] :: acc)) := rfl
+
+theorem zero_line' (m : Nat) (hm : m ≤ I64MAX) (a : AS) (ws k : List Nat) (hws : ∀ x ∈ ws, isWs x = true) (hr : a.rest = ws ++ (str "0" ++ nl ++ k)) :
+    ∃ a', posMax m a = .ok (0, a') ∧ a'.rest = nl ++ k := by
+  have e0 : str "0" = printNat 0 := by decide +kernel
+  exact posMax_ws m 0 (by omega) hm a ws (nl ++ k) hws (by rw [hr, e0]; simp) (sp_nl _)
+
+theorem symbolsLoop_rt : ∀ (outs : List Call) (fuel : Nat) (a : AS) (acc : List Call) (ws k : List Nat), outs.length < fuel →
+    (∀ c ∈ outs, OutOk c) → (∀ x ∈ ws, isWs x = true) → a.rest = ws ++ (symsText outs ++ (str "0" ++ nl ++ k)) →
+    ∃ a', symbolsLoop fuel a acc = (acc.reverse ++ outs, .ok a') ∧ a'.rest = nl ++ k := by
+  intro outs
+  induction outs with
+  | nil =>
+    intro fuel a acc ws k hf _ hws hr
+    obtain ⟨f', rfl⟩ : ∃ f', fuel = f' + 1 := ⟨fuel - 1, by simp at hf; omega⟩
+    obtain ⟨a1, e1, r1⟩ := zero_line' Gen.atomMax (by decide) a ws k hws (by simpa [symsText] using hr)
+    exact ⟨a1, by rw [symbolsLoop_succ, e1]; simp, r1⟩
+  | cons c outs ih =>
+    intro fuel a acc ws k hf hok hws hr
+    obtain ⟨f', rfl⟩ : ∃ f', fuel = f' + 1 := ⟨fuel - 1, by simp at hf; omega⟩
+    have hc := hok c (by simp)
+    cases c with
+    | output name cond =>
+      rcases cond with _ | ⟨l, _ | ⟨l2, r⟩⟩
+      · exact absurd hc (by simp [OutOk])
+      · obtain ⟨hl0, hl1, hname⟩ := hc
+        have hr' : a.rest = ws ++ (printNat l.toNat ++ (sp ++ (name ++ (nl ++ (symsText outs ++ (str "0" ++ nl ++ k)))))) := by
+          rw [hr]; simp [symsText, symText]
+        have hA : Gen.atomMax = 2147483647 := rfl
+        obtain ⟨a1, e1, r1⟩ := posMax_ws Gen.atomMax l.toNat (by rw [hA]; omega) (by decide) a ws _ hws hr'
+          (by intro c r e; simp [sp] at e; exact Or.inl e.1.symm)
+        have hg := get_plain a1 32 (name ++ (nl ++ (symsText outs ++ (str "0" ++ nl ++ k)))) (by simpa [sp] using r1) (by decide) (by decide) (by decide)
+        obtain ⟨a3, e3, r3⟩ := nameLoop_rt name ((a1.get.2).rest.length + 1) a1.get.2 [] (symsText outs ++ (str "0" ++ nl ++ k))
+          (by rw [hg]; simp; omega) hname (by rw [hg])
+        obtain ⟨a4, e4, r4⟩ := ih f' a3 (.output name [((l.toNat : Nat) : Int)] :: acc) [] k (by simp at hf; omega)
+          (fun x hx => hok x (by simp [hx])) (by simp) (by simpa using r3)
+        refine ⟨a4, ?_, r4⟩
+        have hne : ¬ (l.toNat = 0) := by omega
+        have hl : ((l.toNat : Nat) : Int) = l := by omega
+        rw [symbolsLoop_succ, e1]
+        simp only [hne, ↓reduceIte, e3, List.reverse_nil, List.nil_append]
+        rw [e4, hl]
+        simp
+      · exact absurd hc (by simp [OutOk])
+    | _ => exact absurd hc (by simp [OutOk])
+
+/-! ### compute statement and the end of a step -/
+
+def linesOf (xs : List Nat) : List Nat := (xs.map ln).flatten
+
+attribute [local irreducible] posMax in
+theorem computeLoop_succ (val : Bool) (f : Nat) (a : AS) (acc : List Call) : computeLoop val (f + 1) a acc =
+    (match posMax Gen.atomMax a with
+     | .error l => (acc.reverse, .error l)
+     | .ok (x, a1) =>
+       if x = 0 then (acc.reverse, .ok a1) else
+       computeLoop val f a1 (.rule 0 [] [if val then -(x : Int) else (x : Int)] :: acc)) := rfl
+
+theorem computeLoop_rt (val : Bool) : ∀ (xs : List Nat) (fuel : Nat) (a : AS) (acc : List Call) (ws k : List Nat), xs.length < fuel →
+    (∀ x ∈ xs, atomOk x) → (∀ x ∈ ws, isWs x = true) → a.rest = ws ++ (linesOf xs ++ (str "0" ++ nl ++ k)) →
+    ∃ a', computeLoop val fuel a acc = (acc.reverse ++ xs.map (fun x => .rule 0 [] [if val then -(x : Int) else (x : Int)]), .ok a') ∧ a'.rest = nl ++ k := by
+  intro xs
+  induction xs with
+  | nil =>
+    intro fuel a acc ws k hf _ hws hr
+    obtain ⟨f', rfl⟩ : ∃ f', fuel = f' + 1 := ⟨fuel - 1, by simp at hf; omega⟩
+    obtain ⟨a1, e1, r1⟩ := zero_line' Gen.atomMax (by decide) a ws k hws (by simpa [linesOf] using hr)
+    exact ⟨a1, by rw [computeLoop_succ, e1]; simp, r1⟩
+  | cons x xs ih =>
+    intro fuel a acc ws k hf hok hws hr
+    obtain ⟨f', rfl⟩ : ∃ f', fuel = f' + 1 := ⟨fuel - 1, by simp at hf; omega⟩
+    have hx := hok x (by simp)
+    have hA : Gen.atomMax = 2147483647 := rfl
+    obtain ⟨a1, e1, r1⟩ := posMax_ws Gen.atomMax x (by rw [hA]; exact hx.2) (by decide) a ws (nl ++ (linesOf xs ++ (str "0" ++ nl ++ k))) hws
+      (by rw [hr]; simp [linesOf, ln]) (sp_nl _)
+    obtain ⟨a2, e2, r2⟩ := ih f' a1 (.rule 0 [] [if val then -(x : Int) else (x : Int)] :: acc) nl k (by simp at hf; omega)
+      (fun y hy => hok y (by simp [hy])) nl_ws r1
+    refine ⟨a2, ?_, r2⟩
+    have hne : ¬ (x = 0) := by unfold atomOk at hx; omega
+    rw [computeLoop_succ, e1]
+    simp only [hne, ↓reduceIte, e2]
+    simp
+
+theorem lines_length (xs : List Nat) : xs.length ≤ (linesOf xs).length := by
+  induction xs with
+  | nil => simp
+  | cons y ys ih =>
+    have : linesOf (y :: ys) = ln y ++ linesOf ys := by simp [linesOf]
+    rw [this, List.length_append, List.length_cons]
+    have : 1 ≤ (ln y).length := by simp [ln, nl]
+    omega
+
+/-- `B+` / `B-` with its atoms -/
+theorem compute_rt (tok : List Nat) (val : Bool) (xs : List Nat) (a : AS) (ws k : List Nat) (hws : ∀ x ∈ ws, isWs x = true)
+    (htok : ∃ c r, tok = c :: r ∧ isWs c = false) (hxs : ∀ x ∈ xs, atomOk x)
+    (hr : a.rest = ws ++ (tok ++ (nl ++ (linesOf xs ++ (str "0" ++ nl ++ k))))) :
+    ∃ a', compute tok val a = (xs.map (fun x => .rule 0 [] [if val then -(x : Int) else (x : Int)]), .ok a') ∧ a'.rest = nl ++ k := by
+  obtain ⟨c0, r0, htk, hc0⟩ := htok
+  have hsk : a.skipWs.rest = tok ++ (nl ++ (linesOf xs ++ (str "0" ++ nl ++ k))) :=
+    skipWs_spec a ws _ hr hws (by intro c r e; rw [htk] at e; simp at e; rw [← e.1]; exact hc0)
+  have hpre : tok.isPrefixOf a.skipWs.rest = true := by rw [hsk]; simp
+  let a1 : AS := { a.skipWs with rest := a.skipWs.rest.drop tok.length, canUnget := true }
+  have r1 : a1.rest = nl ++ (linesOf xs ++ (str "0" ++ nl ++ k)) := by simp [a1, hsk]
+  have hg := get_plain' a1 _ r1
+  have hmt : a.skipWs.matchTok tok = (true, a1) := by simp [AS.matchTok, hpre, a1]
+  obtain ⟨a3, e3, r3⟩ := computeLoop_rt val xs ((a1.get.2).rest.length + 1) a1.get.2 [] [] k (by
+      rw [hg]
+      have := lines_length xs
+      simp only [List.length_append]; omega) hxs (by simp) (by rw [hg]; rfl)
+  refine ⟨a3, ?_, r3⟩
+  unfold compute
+  rw [hg] at e3
+  simp only [hmt, Bool.not_true, Bool.false_eq_true, ↓reduceIte, hg, ne_eq, not_true_eq_false]
+  simpa using e3
+
+/-- no `E` section: the number of models closes the step -/
+theorem extra_rt (a : AS) (ws k : List Nat) (hws : ∀ x ∈ ws, isWs x = true) (hr : a.rest = ws ++ (str "1" ++ nl ++ k)) :
+    ∃ a', extra a = ([], .ok a') ∧ a'.rest = nl ++ k := by
+  have e1 : str "1" = [49] := by decide +kernel
+  have hsk : a.skipWs.rest = str "1" ++ nl ++ k := skipWs_spec a ws _ (by rw [hr]) hws (by intro c r e; rw [e1] at e; simp at e; rw [← e.1]; decide)
+  have hnp : ([69] : List Nat).isPrefixOf a.skipWs.rest = false := by rw [hsk, e1]; rfl
+  have e1' : str "1" = printNat 1 := by decide +kernel
+  obtain ⟨a3, e3, r3⟩ := posMax_ws U32MAX 1 (by decide) (by decide) ({ a.skipWs with canUnget := false } : AS) [] (nl ++ k) (by simp)
+    (by simp [hsk, e1']) (sp_nl _)
+  refine ⟨a3, ?_, r3⟩
+  unfold extra AS.matchTok
+  have hpos : pos ({ a.skipWs with canUnget := false } : AS) = .ok (1, a3) := e3
+  simp only [hnp, Bool.false_eq_true, ↓reduceIte, hpos]
+
+/-! ### one step -/
+
+/-- a step as the writer's ordering admits it: rule section, symbol table, at most one compute statement -/
+structure Step where
+  rs   : List Call
+  outs : List Call
+  asm  : Option (List Int)
+
+def asmCalls : Option (List Int) → List Call
+  | some l => [.assume l]
+  | none => []
+
+def Step.calls (s : Step) : List Call := [.beginStep] ++ s.rs ++ s.outs ++ asmCalls s.asm ++ [.endStep]
+
+structure StepOk (ext : Bool) (f : Nat) (s : Step) : Prop where
+  rules : ∀ c ∈ s.rs, RuleOk ext f c
+  outs  : ∀ c ∈ s.outs, OutOk c
+  asm   : ∀ l, s.asm = some l → ∀ x ∈ l, litOk x
+
+def Step.lits (s : Step) : List Int := s.asm.getD []
+def Step.fHead (s : Step) : Bool := s.rs.any usesFalse
+/-- atoms listed under `B+` and under `B-` (the false atom last, when an integrity constraint used it) -/
+def Step.bPlus (s : Step) : List Nat := (s.lits.filter (· > 0)).map Int.natAbs
+def Step.bMinus (f : Nat) (s : Step) : List Nat := (s.lits.filter (· < 0)).map Int.natAbs ++ (if s.fHead && f != 0 then [f] else [])
+
+/-- symbol table, compute statement and model count of a step, followed by `k` -/
+def tailText (f : Nat) (s : Step) (k : List Nat) : List Nat :=
+  symsText s.outs ++ (str "0" ++ nl ++ ([66, 43] ++ (nl ++ (linesOf s.bPlus ++ (str "0" ++ nl ++ ([66, 45] ++ (nl ++
+    (linesOf (s.bMinus f) ++ (str "0" ++ nl ++ (str "1" ++ nl ++ k))))))))))
+
+def stepTextK (ext inc : Bool) (f : Nat) (s : Step) (k : List Nat) : List Nat :=
+  (if ext && inc then str "90 0" ++ nl else []) ++ (rulesText f s.rs ++ (str "0" ++ nl ++ tailText f s k))
+
+def stepText (ext inc : Bool) (f : Nat) (s : Step) : List Nat := stepTextK ext inc f s []
+
+theorem stepText_append (ext inc : Bool) (f : Nat) (s : Step) (k : List Nat) : stepText ext inc f s ++ k = stepTextK ext inc f s k := by
+  simp [stepText, stepTextK, tailText, List.append_assoc]
+
+/-- what reading a written step delivers between `beginStep` and `endStep` -/
+def canonStep (f : Nat) (s : Step) : List Call :=
+  canonRules f 0 s.rs ++ s.outs ++ s.bPlus.map (fun x => .rule 0 [] [-(x : Int)]) ++ (s.bMinus f).map (fun x => .rule 0 [] [(x : Int)])
+
+theorem syms_length (outs : List Call) (h : ∀ c ∈ outs, OutOk c) : outs.length ≤ (symsText outs).length := by
+  induction outs with
+  | nil => simp
+  | cons c r ih =>
+    have := ih (fun x hx => h x (by simp [hx]))
+    have e : symsText (c :: r) = symText c ++ symsText r := by simp [symsText]
+    rw [e, List.length_append, List.length_cons]
+    have : 1 ≤ (symText c).length := by
+      have hc := h c (by simp)
+      cases c with
+      | output name cond =>
+        rcases cond with _ | ⟨l, _ | ⟨l2, r⟩⟩
+        · exact absurd hc (by simp [OutOk])
+        · have := printNat_len l.toNat
+          simp only [symText, nl, List.length_append]; omega
+        · exact absurd hc (by simp [OutOk])
+      | _ => exact absurd hc (by simp [OutOk])
+    omega
+
+theorem bPlus_ok (s : Step) (h : ∀ l, s.asm = some l → ∀ x ∈ l, litOk x) : ∀ x ∈ s.bPlus, atomOk x := by
+  intro x hx
+  simp only [Step.bPlus, List.mem_map, List.mem_filter] at hx
+  obtain ⟨l, ⟨hl, _⟩, rfl⟩ := hx
+  cases ha : s.asm with
+  | none => simp [Step.lits, ha] at hl
+  | some ls => exact litOk_atom (h ls ha l (by simpa [Step.lits, ha] using hl))
+
+theorem bMinus_ok (ext : Bool) (f : Nat) (s : Step) (h : StepOk ext f s) : ∀ x ∈ s.bMinus f, atomOk x := by
+  intro x hx
+  simp only [Step.bMinus, List.mem_append, List.mem_map, List.mem_filter] at hx
+  rcases hx with ⟨l, ⟨hl, _⟩, rfl⟩ | hx
+  · cases ha : s.asm with
+    | none => simp [Step.lits, ha] at hl
+    | some ls => exact litOk_atom (h.asm ls ha l (by simpa [Step.lits, ha] using hl))
+  · split at hx
+    · rename_i hc
+      simp only [List.mem_singleton] at hx; subst hx
+      simp only [Bool.and_eq_true, Step.fHead, List.any_eq_true, bne_iff_ne, ne_eq] at hc
+      obtain ⟨⟨c, hc1, hc2⟩, _⟩ := hc
+      have hr := h.rules c hc1
+      cases c with
+      | rule ht head body =>
+        simp only [usesFalse, Bool.and_eq_true, List.isEmpty_iff, bne_iff_ne, ne_eq] at hc2
+        rcases hr.2.2.2.2.2 hc2.1 with h1 | h1
+        · exact absurd h1 hc2.2
+        · exact h1
+      | sumRule ht head b ws =>
+        simp only [usesFalse, List.isEmpty_iff] at hc2
+        exact hr.2.1 hc2
+      | _ => simp [usesFalse] at hc2
+    · simp at hx
+
+/-- the reader on the text of one step -/
+theorem step_rt (ext inc : Bool) (f : Nat) (s : Step) (h : StepOk ext f s) (hinc : inc = true → ext = true) (a : AS) (k : List Nat)
+    (hr : a.rest = stepText ext inc f s ++ k) :
+    ∃ a', SmodelsIn.step ext a = (canonStep f s, .ok a') ∧ a'.rest = nl ++ k := by
+  rw [stepText_append] at hr
+  -- the rule section (after the incremental marker, if any)
+  obtain ⟨a1, e1, r1⟩ : ∃ a1, rulesLoop ext (a.rest.length + 1) a 0 [] = (canonRules f 0 s.rs, .ok a1) ∧ a1.rest = nl ++ tailText f s k := by
+    by_cases hi : (ext && inc) = true
+    · have hext : ext = true := by simp only [Bool.and_eq_true] at hi; exact hi.1
+      subst hext
+      simp only [stepTextK, hi, ↓reduceIte] at hr
+      obtain ⟨a0, e0, r0⟩ := rulesLoop_inc a.rest.length a 0 [] (rulesText f s.rs ++ (str "0" ++ nl ++ tailText f s k)) (by rw [hr])
+      obtain ⟨a1, e1, r1⟩ := rulesLoop_rt true f s.rs a.rest.length a0 0 [] nl (tailText f s k)
+        (by rw [r0, hr]; simp only [List.length_append]; have : 1 ≤ (str "90 0").length := by decide +kernel
+            omega) h.rules nl_ws r0
+      exact ⟨a1, by rw [e0, e1]; simp, r1⟩
+    · have hi' : (ext && inc) = false := by simpa using hi
+      simp only [stepTextK, hi', Bool.false_eq_true, ↓reduceIte, List.nil_append] at hr
+      obtain ⟨a1, e1, r1⟩ := rulesLoop_rt ext f s.rs (a.rest.length + 1) a 0 [] [] (tailText f s k) (by omega) h.rules (by simp) (by rw [hr]; simp)
+      exact ⟨a1, by rw [e1]; simp, r1⟩
+  unfold tailText at r1
+  obtain ⟨a2, e2, r2⟩ := symbolsLoop_rt s.outs (a1.rest.length + 1) a1 [] nl _ (by
+      have := syms_length s.outs h.outs
+      rw [r1]; simp only [List.length_append]; omega) h.outs nl_ws r1
+  obtain ⟨a3, e3, r3⟩ := compute_rt [66, 43] true s.bPlus a2 nl _ nl_ws ⟨66, [43], rfl, by decide⟩ (bPlus_ok s h.asm) r2
+  obtain ⟨a4, e4, r4⟩ := compute_rt [66, 45] false (s.bMinus f) a3 nl _ nl_ws ⟨66, [45], rfl, by decide⟩ (bMinus_ok ext f s h) r3
+  obtain ⟨a5, e5, r5⟩ := extra_rt a4 nl k nl_ws (by rw [r4])
+  refine ⟨a5, ?_, r5⟩
+  unfold SmodelsIn.step
+  simp only [e1, e2, e3, e4, e5, List.reverse_nil, List.nil_append, List.append_nil, canonStep]
+  simp
+
+/-! ### the writer on a step, in closed form -/
+
+theorem run_append (ext : Bool) (f : Nat) : ∀ (xs ys : List Call) (w : W),
+    run ext f w (xs ++ ys) = (match run ext f w xs with | .error e => .error e | .ok w' => run ext f w' ys) := by
+  intro xs
+  induction xs with
+  | nil => intro ys w; rfl
+  | cons c r ih =>
+    intro ys w
+    simp only [List.cons_append, run]
+    cases SmodelsOut.step ext f w c with
+    | error e => rfl
+    | ok w' => exact ih ys w'
+
+theorem run_rules (ext : Bool) (f : Nat) : ∀ (rs : List Call) (w : W), w.sec = 0 → (∀ c ∈ rs, RuleOk ext f c) →
+    run ext f w rs = .ok ({ w with fHead := w.fHead || rs.any usesFalse }.put (rulesText f rs)) := by
+  intro rs
+  induction rs with
+  | nil => intro w _ _; simp [run, rulesText, W.put]
+  | cons c r ih =>
+    intro w hs hok
+    simp only [run]
+    rw [step_rule ext f w c hs (hok c (by simp))]
+    simp only
+    rw [ih _ (by simp [W.put, hs]) (fun x hx => hok x (by simp [hx]))]
+    simp [W.put, rulesText, Bool.or_assoc]
+
+theorem run_outs (ext : Bool) (f : Nat) : ∀ (outs : List Call) (w : W), w.sec = 1 → (∀ c ∈ outs, OutOk c) →
+    run ext f w outs = .ok (w.put (symsText outs)) := by
+  intro outs
+  induction outs with
+  | nil => intro w _ _; simp [run, symsText, W.put]
+  | cons c r ih =>
+    intro w hs hok
+    have hc := hok c (by simp)
+    cases c with
+    | output name cond =>
+      rcases cond with _ | ⟨l, _ | ⟨l2, r'⟩⟩
+      · exact absurd hc (by simp [OutOk])
+      · obtain ⟨hl0, _, _⟩ := hc
+        have hl : ¬ l ≤ 0 := by omega
+        simp only [run, SmodelsOut.step, hs, gt_iff_lt, Nat.lt_irrefl, ↓reduceIte, hl, Nat.succ_ne_zero]
+        rw [ih _ (by simp [W.put, hs]) (fun x hx => hok x (by simp [hx]))]
+        simp [W.put, symsText, symText]
+      · exact absurd hc (by simp [OutOk])
+    | _ => exact absurd hc (by simp [OutOk])
+
+theorem strs : str "0\n" = str "0" ++ nl ∧ str "B+\n" = [66, 43] ++ nl ∧ str "0\nB-\n" = str "0" ++ nl ++ ([66, 45] ++ nl) ∧
+    str "1\n" = str "1" ++ nl ∧ str "90 0\n" = str "90 0" ++ nl := by decide +kernel
+
+theorem linesOf_append (xs ys : List Nat) : linesOf (xs ++ ys) = linesOf xs ++ linesOf ys := by simp [linesOf]
+
+/-- symbol table (if any), compute statement and end of the step, from the state the rule section leaves -/
+theorem run_tail (ext : Bool) (f : Nat) (s : Step) (w : W) (hs : w.sec = 0) (hf : w.fHead = s.fHead) (hok : ∀ c ∈ s.outs, OutOk c) :
+    run ext f w (s.outs ++ asmCalls s.asm ++ [.endStep]) =
+      .ok { out := w.out ++ (str "0" ++ nl ++ tailText f s []), sec := 2, fHead := w.fHead, inc := w.inc } := by
+  obtain ⟨z0, zb, zm, z1, _⟩ := strs
+  -- the state after the symbol table and the number of section terminators still to be written
+  obtain ⟨w1, e1, ho, hsec, hfh, hinc⟩ : ∃ w1, run ext f w s.outs = .ok w1 ∧
+      w1.out ++ (List.replicate (2 - w1.sec) (str "0\n")).flatten = w.out ++ (str "0" ++ nl ++ (symsText s.outs ++ (str "0" ++ nl))) ∧
+      w1.sec < 2 ∧ w1.fHead = w.fHead ∧ w1.inc = w.inc := by
+    cases ho : s.outs with
+    | nil => exact ⟨w, rfl, by simp [hs, symsText, z0, List.replicate], by omega, rfl, rfl⟩
+    | cons c r =>
+      have hc := hok c (by simp [ho])
+      cases c with
+      | output name cond =>
+        rcases cond with _ | ⟨l, _ | ⟨l2, r'⟩⟩
+        · exact absurd hc (by simp [OutOk])
+        · obtain ⟨hl0, _, _⟩ := hc
+          have hl : ¬ l ≤ 0 := by omega
+          refine ⟨(({ (w.put (str "0\n")) with sec := 1 } : W).put (symText (.output name [l]))).put (symsText r), ?_, ?_, ?_, ?_, ?_⟩
+          · simp only [run, SmodelsOut.step, hs, gt_iff_lt, Nat.not_lt_zero, ↓reduceIte, hl]
+            rw [run_outs ext f r _ (by simp [W.put]) (fun x hx => hok x (by simp [ho, hx]))]
+            simp [W.put, symText]
+          · simp [W.put, symsText, z0, List.replicate]
+          · simp [W.put]
+          · simp [W.put]
+          · simp [W.put]
+        · exact absurd hc (by simp [OutOk])
+      | _ => exact absurd hc (by simp [OutOk])
+  rw [List.append_assoc, run_append, e1]
+  simp only
+  have hfinal : ∀ lits, lits = s.lits → (match doAssume f w1 lits with | .error e => Except.error e | .ok w2 => Except.ok (w2.put (str "1\n"))) =
+      .ok { out := w.out ++ (str "0" ++ nl ++ tailText f s []), sec := 2, fHead := w.fHead, inc := w.inc } := by
+    intro lits hl
+    have hns : ¬ (w1.sec ≥ 2) := by omega
+    simp only [doAssume, hns, ↓reduceIte, W.put, computeText, hfh, hf, hinc]
+    congr 1
+    · rw [List.append_assoc, List.append_assoc, ← List.append_assoc w1.out, ho]
+      simp only [tailText, Step.bPlus, Step.bMinus, linesOf_append, hl, zb, zm, z0, z1, List.append_assoc, List.map_map, linesOf]
+      congr 5
+      split <;> simp [ln, Function.comp_def]
+  cases ha : s.asm with
+  | some l =>
+    have hl : l = s.lits := by simp [Step.lits, ha]
+    have := hfinal l hl
+    simp only [asmCalls, List.cons_append, List.nil_append, run, SmodelsOut.step]
+    cases hd : doAssume f w1 l with
+    | error e => rw [hd] at this; cases this
+    | ok w2 =>
+      rw [hd] at this
+      have h2 : w2.sec = 2 := by
+        have hns : ¬ (w1.sec ≥ 2) := by omega
+        simp only [doAssume, hns, ↓reduceIte] at hd
+        cases hd; rfl
+      simp only [h2, Nat.lt_irrefl, ↓reduceIte]
+      exact this
+  | none =>
+    have hl : ([] : List Int) = s.lits := by simp [Step.lits, ha]
+    have := hfinal [] hl
+    simp only [asmCalls, List.nil_append, run, SmodelsOut.step, hsec, ↓reduceIte]
+    cases hd : doAssume f w1 [] with
+    | error e => rw [hd] at this; cases this
+    | ok w2 => rw [hd] at this; simpa using this
+
 end PotasscoVerif.SmRT
